@@ -204,3 +204,112 @@ func documentedDefaults(c *Ctx, id string) {
 		c.Undecided(id, "documented-floor", 0, "only %d documented defaults compared (28 on the reference tree; floor 20)", checked)
 	}
 }
+
+// configPredicates (C15/C02/C12): the predicates the start-up switches on say what the documentation says: the
+// checkpoint backend is Couchbase ⇔ metadata.type is "couchbase", a file ⇔ "file"; the stream is finite ⇔ dcp.mode is
+// "finite" (README.md names these values). Exhaustive over equal / not equal.
+func configPredicates(c *Ctx, id string) {
+	w := c.W
+	for _, t := range []struct{ method, field, value string }{
+		{"IsCouchbaseMetadata", "Metadata.Type", "couchbase"},
+		{"IsFileMetadata", "Metadata.Type", "file"},
+		{"IsDcpModeFinite", "Dcp.Mode", "finite"},
+	} {
+		fn := w.Method("config", "Dcp", t.method)
+		if fn == nil {
+			c.Undecided(id, "predicate:"+t.method, 0, "config.(*Dcp).%s not found", t.method)
+			continue
+		}
+		c.see(fn)
+		recv := fn.Params[0].Name()
+		atom := fmt.Sprintf("%s.%s==%q", recv, t.field, t.value)
+		tt := t
+		c.oae(id, "predicate:"+t.method, fn.Pos(), &Harness{Fn: fn, Bools: []string{atom}, Quiet: quietLog}, func(st *State, out *Outcome) string {
+			b, ok := out.Ret[0].(avBool)
+			if !ok {
+				return "the answer does not depend on " + tt.field + " == " + strconv.Quote(tt.value) + " alone: " + avString(out.Ret[0])
+			}
+			if b.b != st.B(atom) {
+				return fmt.Sprintf("%s answers %v when %s == %q is %v", tt.method, b.b, tt.field, tt.value, st.B(atom))
+			}
+			return ""
+		}, fmt.Sprintf("%s ⇔ %s == %q", t.method, t.field, t.value))
+	}
+}
+
+// overrideParsing (C17): a configured override that cannot be parsed stops the client instead of silently becoming
+// zero: in every derived-settings getter of the configuration each parse error reaches a panic along the edges on
+// which it can be non-nil; and the file backend's file name is returned ⇔ it is configured and not empty.
+func overrideParsing(c *Ctx, id string) {
+	w := c.W
+	n := 0
+	for _, fn := range w.ModFuncs {
+		if fn.Parent() != nil || fn.Signature.Recv() == nil || pkgOfFn(fn) == "" || !strings.HasSuffix(pkgOfFn(fn), "/config") || !strings.HasPrefix(fn.Name(), "Get") {
+			continue
+		}
+		c.see(fn)
+		allInstrs(fn, func(in ssa.Instruction) {
+			call, ok := in.(*ssa.Call)
+			if !ok || !hasErrorResult(call.Common()) {
+				return
+			}
+			n++
+			ers := errResults(call)
+			fatal := false
+			if len(ers) > 0 {
+				for _, sk := range errorSinks(ers[0]) {
+					if sk.Kind == "panic" {
+						fatal = true
+					}
+				}
+			}
+			construct := fmt.Sprintf("override-parse:%s@%s#%d", calleeName(call.Common()), fn.Name(), nthCallIn(fn, call))
+			c.Check(fatal, id, construct, in.Pos(), "a value that cannot be parsed is fatal", "the error of "+calleeName(call.Common())+" does not stop the client on the path on which it is non-nil: an unparsable override silently becomes the zero value")
+		})
+	}
+	if n < 8 {
+		c.Undecided(id, "override-parse-floor", 0, "only %d parse steps found in the derived-settings getters (12 on the reference tree; floor 8)", n)
+	}
+	gf := w.Method("config", "Dcp", "GetFileMetadata")
+	if gf == nil {
+		c.Undecided(id, "file-name", 0, "config.(*Dcp).GetFileMetadata not found")
+		return
+	}
+	c.see(gf)
+	h := &Harness{Fn: gf, Bools: []string{"configured", `fileName==""`}, Quiet: quietLog,
+		Valid: func(st *State) bool { return st.B("configured") || !st.B(`fileName==""`) },
+		Oracle: func(st *State, name string, args []AV, res *types.Tuple) ([]AV, bool) {
+			if strings.HasPrefix(name, "lookup:") {
+				if st.B("configured") {
+					return []AV{avStr{sym: "fileName"}, avBool{true}}, true
+				}
+				return []AV{avStr{isC: true}, avBool{false}}, true
+			}
+			return nil, false
+		}}
+	c.oae(id, "file-name", gf.Pos(), h, func(st *State, out *Outcome) string {
+		ok := st.B("configured") && !st.B(`fileName==""`)
+		if ok == out.Panicked {
+			return fmt.Sprintf("configured=%v empty=%v: panics=%v", st.B("configured"), st.B(`fileName==""`), out.Panicked)
+		}
+		if ok && avString(out.Ret[0]) != "fileName" {
+			return "returns " + avString(out.Ret[0]) + " instead of the configured file name"
+		}
+		return ""
+	}, "the configured name ⇔ configured and not empty; fatal otherwise")
+}
+
+// nthCallIn: the ordinal of call among the calls of the same callee in fn (stable under edits elsewhere).
+func nthCallIn(fn *ssa.Function, call *ssa.Call) int {
+	n, found := 0, 0
+	name := calleeName(call.Common())
+	allInstrs(fn, func(in ssa.Instruction) {
+		if cl, ok := in.(*ssa.Call); ok && calleeName(cl.Common()) == name {
+			n++
+			if cl == call {
+				found = n
+			}
+		}
+	})
+	return found
+}
